@@ -183,3 +183,53 @@ pub fn c14(o: &Opts) -> Outcome {
     }
     Outcome { cases, witness: None }
 }
+
+/// C05: row i belongs to record i for every thread count, memory limit, writer path; header adds one line
+pub fn c05(o: &Opts) -> Outcome {
+    let mut cases = 0u64;
+    let mut rng = Rng(o.seed.wrapping_mul(0x9E3779B97F4A7C15) | 1);
+    let one = |recs: &Vec<Vec<u8>>, k: usize, norm: bool, threads: usize, mem: usize, header: bool, delim: &str| -> Option<Vec<(String, String)>> {
+        let out = run_oligo(recs, k, norm, threads, delim, header, Some(mem));
+        let why = match out {
+            Err(e) => e,
+            Ok(text) => {
+                let mut lines: Vec<&str> = text.split('\n').collect();
+                let mut w = String::new();
+                if header {
+                    let want: Vec<String> = (0..pow4(k)).filter(|&x| is_canon(x, k)).map(|x| text_of(x, k)).collect();
+                    if lines.is_empty() || lines[0] != want.join(delim) { w = "first line is not the header".into(); }
+                    if !lines.is_empty() { lines.remove(0); }
+                }
+                if w.is_empty() {
+                    if lines.len() != recs.len() + 1 || !lines[recs.len()].is_empty() { w = format!("{} rows for {} records", lines.len() - 1, recs.len()); }
+                    else { for (i, r) in recs.iter().enumerate() { if let Err(e) = row_matches(lines[i], r, k, norm, delim) { w = format!("row {} is not the row of record {}: {}", i, i, e); break; } } }
+                }
+                w
+            }
+        };
+        if why.is_empty() { None } else {
+            Some(vec![("records".into(), recs.iter().map(|r| show(r)).collect::<Vec<_>>().join("|")), ("k".into(), k.to_string()), ("norm".into(), norm.to_string()),
+                      ("threads".into(), threads.to_string()), ("mem".into(), mem.to_string()), ("header".into(), header.to_string()), ("delim".into(), delim.to_string()), ("why".into(), why)])
+        }
+    };
+    if let Some(inp) = &o.input {
+        let recs: Vec<Vec<u8>> = inp["records"].split('|').map(unshow).collect();
+        return Outcome { cases: 1, witness: one(&recs, inp["k"].parse().unwrap(), inp["norm"] == "true", inp["threads"].parse().unwrap(), inp["mem"].parse().unwrap(), inp["header"] == "true", &inp["delim"]) };
+    }
+    for round in 0..(if o.thorough { 60 } else { 10 }) {
+        let n = 1 + rng.below(if round % 3 == 0 { 300 } else { 12 }) as usize;
+        let recs: Vec<Vec<u8>> = (0..n).map(|_| { let l = 1 + rng.below(150) as usize; random_seq(&mut rng, l, 10).iter().map(|&b| if b < 0x21 || b > 0x7e || b == b'>' { b'N' } else { b }).collect() }).collect();
+        let k = 1 + (round % 4) as usize;
+        for norm in [true, false] {
+            for threads in [1usize, 3, 16] {
+                for mem in [1usize, 200, 4 << 30] {
+                    let header = rng.below(2) == 0;
+                    let delim = [" ", ",", "\t"][rng.below(3) as usize];
+                    cases += 1;
+                    if let Some(w) = one(&recs, k, norm, threads, mem, header, delim) { return Outcome { cases, witness: Some(w) }; }
+                }
+            }
+        }
+    }
+    Outcome { cases, witness: None }
+}
